@@ -38,6 +38,94 @@ func init() {
 	})
 
 	register(&PropCheck{
+		ID:      "C15",
+		PkgDirs: []string{"internal/transfer"},
+		Level:   "other",
+		Explanation: "Every control-stream decoder (readControlMessage and the nine read* it dispatches to, readControlHeader, the legacy RecvManifest/readRelPath and RecvFile headers) is executed symbolically on an input buffer of N fully symbolic bytes behind an in-memory stream that reports EOF at its end. " +
+			"Outcomes decided by the solver per path: a Go panic (index, slice, nil, type assertion, divide, negative make) is a violation; a blocked operation is a violation; every make() whose size is a function of input bytes must satisfy bytes <= 64 MiB + 2N for all inputs (sat = concrete hostile message). Counterexamples replay natively (panic, or runtime.MemStats.TotalAlloc delta).",
+		Rule:        "assertion sites: vAssert lines of H_C15_* plus one allocation obligation per make() site whose size depends on input",
+		Assumptions: []string{"input length N case-split 0..24 (quick) / 0..48 (thorough)", "after an input-sized allocation the path is followed for lengths 0..4 (quick) / 0..8 (thorough) elements; longer ones end at the allocation (reported as outside_bound)", "JSON body of the manifest is opaque (Unmarshal: arbitrary outcome)", "the stream returns EOF at the end of the buffer (no stalling peer)"},
+		Bounds: func(tier string) string {
+			if tier == "thorough" {
+				return "N <= 48 input bytes; input-sized allocations followed up to 8 elements"
+			}
+			return "N <= 24 input bytes; input-sized allocations followed up to 4 elements"
+		},
+		Jobs: func(tier string, prog *ssa.Program) []*Job {
+			js := []*Job{
+				hj("C15.control", "H_C15_control", "readControlMessage on arbitrary bytes"),
+				hj("C15.header", "H_C15_header", "readControlHeader on arbitrary bytes"),
+				hj("C15.relpath", "H_C15_relpath", "legacy readRelPath on arbitrary bytes"),
+				hj("C15.recvmanifest", "H_C15_recvmanifest", "legacy RecvManifest header on arbitrary bytes"),
+				hj("C15.recvfile", "H_C15_recvfile", "legacy RecvFile header on arbitrary bytes"),
+			}
+			for _, j := range js {
+				j.AllocLimit = 64<<20 + 2*48
+				j.Workers = 6
+				if tier == "thorough" {
+					j.MaxSymAlloc = 8
+				}
+			}
+			return js
+		},
+	})
+
+	register(&PropCheck{
+		ID:      "C06",
+		PkgDirs: []string{"internal/transfer"},
+		Level:   "other",
+		Explanation: "LoadSidecar, BitmapFromBytes, Sidecar.Flush and LoadOrCreateSidecarWithFallback are executed symbolically over a filesystem model: (a) arbitrary file contents of N symbolic bytes: no panic, and acceptance implies magic/version/length/checksum consistency; (b) every single-bit flip and truncation of a Flush output with symbolic fields is rejected; (c) for arbitrary valid sidecars at the primary and fallback path the returned sidecar has the requested identity and chunk count and is empty unless an exact match was loaded. CRC-32C is an uninterpreted function (real value on concrete data).",
+		Rule:        "assertion sites: vAssert lines of H_C06_*",
+		Assumptions: []string{"A-CRC1: CRC-32C differs under a single-bit flip of its input (instantiated on the flipped/unflipped pair)", "N <= 40 arbitrary bytes; generated sidecars: id <= 4 bytes, <= 16 chunks (round trip), <= 8 chunks (damage, identity)", "os.ReadFile/WriteFile/Rename/Remove/MkdirAll are the filesystem model of DESIGN §2.3"},
+		Bounds: func(tier string) string { return "arbitrary sidecar files up to 40 bytes; flips at every bit and cuts at every byte of sidecars with <= 4-byte ids and <= 8 chunks" },
+		Jobs: func(tier string, prog *ssa.Program) []*Job {
+			js := []*Job{
+				hj("C06.arbitrary", "H_C06_arbitrary", "LoadSidecar on arbitrary bytes"),
+				hj("C06.roundtrip", "H_C06_roundtrip", "LoadSidecar(Flush(sc)) == sc"),
+				hj("C06.damage", "H_C06_damage", "bit flips and truncations are rejected"),
+				hj("C06.identity", "H_C06_identity", "identity and chunk count of the sidecar returned for a file"),
+			}
+			for _, j := range js {
+				j.Workers = 8
+				j.MaxSymAlloc = 8
+			}
+			return js
+		},
+	})
+
+	register(&PropCheck{
+		ID:      "C17",
+		PkgDirs: []string{"internal/transfer"},
+		Level:   "model_checking",
+		Explanation: "Bounded model checking of the sender's per-file dispatch state machine: the repository's own sendFileState.nextChunkToSend / markChunkDone / trySendEnd (with Bitmap.Get and chunkSizeForIndex) are executed from go/ssa for every sequence of worker steps take(w)/finish(w) interleaved with the arrival of the resume report and of the verification verdict. " +
+			"File size, bitmap bytes, forceSendFrom, verified chunk, verifyNeeded and the verdict are solver variables; the schedule is a sequence of forked choices over the enabled events (workers symmetric). Ghost counters assert exactly-once dispatch, no dispatch of reported chunks below the verification point, one extra dispatch of the mismatching chunk, a single FileEnd only when nothing is in flight, verification is decided and no re-send is outstanding, nothing after FileEnd, and progress to FileEnd when idle.",
+		Rule:        "states = paths explored (one per schedule x data class), transitions = solver queries; assertion sites: vAssert lines of vC17*",
+		Assumptions: []string{"methods are mutex-protected, hence atomic steps (checked by the lock model: a Lock of a held mutex ends the path)", "glue mirrors nextTask / worker loop / applyResumeInfo of SendManifestMultiStream (harness header); a reordering of those call sites is outside what this check sees", "bounds per tier below"},
+		Bounds: func(tier string) string {
+			if tier == "thorough" {
+				return "chunks <= 3 with 2 workers and 9 steps (resume), chunks <= 4 with 3 workers and 10/11 steps (plain/resume); chunk size 4, last chunk 1..4 bytes"
+			}
+			return "chunks <= 3, 2 workers, 8 steps without resume; chunks <= 2, 2 workers, 8 steps with resume report/verdict arrival at every step"
+		},
+		Jobs: func(tier string, prog *ssa.Program) []*Job {
+			js := []*Job{
+				hj("C17.plain", "H_C17_plain", "dispatch/FileEnd without resume"),
+				hj("C17.resume", "H_C17_resume", "dispatch/FileEnd with resume report and verdict arriving at any step"),
+			}
+			if tier == "thorough" {
+				js = append(js, hj("C17.resume-mid", "H_C17_resume_mid", "3 chunks, 2 workers, 9 steps"),
+					hj("C17.plain-deep", "H_C17_plain_deep", "4 chunks, 3 workers, 10 steps"),
+					hj("C17.resume-deep", "H_C17_resume_deep", "4 chunks, 3 workers, 11 steps"))
+			}
+			for _, j := range js {
+				j.Workers = 8
+				j.MaxPaths = 3000000
+			}
+			return js
+		},
+	})
+
+	register(&PropCheck{
 		ID:      "C18",
 		PkgDirs: []string{"internal/transfer"},
 		Level:   "other",
